@@ -14,7 +14,7 @@ LEVEL_TEXT = ('Lean 4 theorems, for all shapes/targets/parities: pad (2-D and cu
               'preserves the sum; the centroid of an array that is half-turn symmetric about a sample is that sample, the centroid of an indicator '
               'set is its mean position; mesh coordinates translate under integer '
               'shifts and negate under the half-turn index map; circle/rectangle/hexagon values lie in [0,1], are binary without '
-              'antialiasing, translate under integer shifts and are half-turn (and, unrotated, mirror) symmetric — hexagons via the closure of their six '
+              'antialiasing, translate under integer shifts (also spider) and are half-turn and mirror symmetric (hexagons in both orientations) — via the closure of their six '
               'edge normals under negation/mirroring, proved for the real angles n·pi/3 + phi; hex_ring(k) has 6k cells at cube '
               'distance k, pairwise distinct; a k-ring aperture has 1+3k(k+1) distinct cells minus the dropped numbers in range; for seg_gap > 0 '
               'two segments at distinct cells share no pixel (separating-axis argument over any ordered field, both orientations, with the '
@@ -39,7 +39,8 @@ TRUSTED = ['NumPy slicing, reshape(...).sum, np.any/np.where, np.clip/np.minimum
 UNPROVEN = ['hex_segments: equal segment area up to edge sampling (checked on the real code by the oracle only)']
 ASSUMPTIONS = ['shape parameters, shifts and radii are dyadic rationals of moderate size so that mesh coordinates are exact in float64',
                'non-overlap is judged on non-antialiased masks; seg_gap = 0 is the recorded known finding KF-C20-hex-gap0-shared-edge',
-               'border clearance is stated for pad >= 2 (the default); pad < 2 is not claimed']
+               'border clearance is stated for pad >= 2 (the default); pad < 2 is not claimed',
+               'util.window(cube, slice=...) is not generated: it slices the first two axes (depth, rows) of a cube, not rows and columns — reported, outside the property statement']
 
 # ------------------------------------------------------------------------------------------ generation
 def _ints(rng, n, lo=-4, hi=5): return [int(x) for x in rng.integers(lo, hi, n)]
@@ -85,6 +86,15 @@ def generate(rng, tier):
         elif t == 2:
             m = (int(rng.integers(1, 4)), int(rng.integers(1, 8)), int(rng.integers(1, 8))); S = (int(rng.integers(1, 9)), int(rng.integers(1, 9)))
             out.append({'kind': 'pad3', 'shape': list(m), 'to': list(S), 'data': _ints(rng, m[0] * m[1] * m[2], 1, 9)})
+        elif t == 3 and k % 28 == 3:
+            m = (int(rng.integers(2, 10)), int(rng.integers(2, 10)))
+            mode = ['shape', 'slice', 'both', 'none', 'one-element', 'cube-shape'][int(rng.integers(0, 6))]
+            c = {'kind': 'window', 'shape': list(m), 'data': _ints(rng, m[0] * m[1], 1, 9), 'mode': mode,
+                 'to': [int(rng.integers(1, 12)), int(rng.integers(1, 12))]}
+            r0, c0 = int(rng.integers(0, m[0])), int(rng.integers(0, m[1]))
+            c['slice'] = [r0, int(rng.integers(r0 + 1, m[0] + 1)), c0, int(rng.integers(c0 + 1, m[1] + 1))]
+            if mode.startswith('cube'): c['shape'] = [2] + list(m); c['data'] = _ints(rng, 2 * m[0] * m[1], 1, 9)
+            out.append(c)
         elif t == 3:
             m = (int(rng.integers(1, 10)), int(rng.integers(1, 10)))
             sub = (int(rng.integers(1, m[0] + 2)), int(rng.integers(1, m[1] + 2)))
@@ -150,6 +160,9 @@ def generate(rng, tier):
             if t == 10:
                 rad = _dy(rng, D, 3 * D) if far else _dy(rng, 1, 6)
                 out.append({'kind': 'circle', 'shape': shp, 'radius': rad, 'shift': shift, 'aa': aa, 'dshift': dshift})
+            elif t == 12 and k % 28 == 12:
+                ang = [0.0, 90.0, 30.0, 45.0, 180.0, float(int(rng.integers(-180, 181)))][int(rng.integers(0, 6))]
+                out.append({'kind': 'spider', 'shape': shp, 'width': _dy(rng, 1, 4), 'shift': shift, 'angle': ang, 'aa': aa, 'dshift': dshift})
             elif t in (11, 12):
                 ang = [0.0, 0.0, 90.0, 30.0, 45.0, float(int(rng.integers(-180, 181)))][int(rng.integers(0, 6))]
                 out.append({'kind': 'rectangle', 'shape': shp, 'width': _dy(rng, D, 4 * D) if far else _dy(rng, 1, 9),
@@ -174,7 +187,8 @@ def signature(c):
     keys = {'pad2': ('shape', 'to'), 'pad3': ('shape', 'to'), 'subarray': ('shape', 'sub', 'shift'), 'boundary': ('shape', 'data', 'thr', 'pad'),
             'rebin': ('shape', 'f'), 'centroid': ('shape', 'data'), 'hex_ring': ('k',), 'mesh': ('shape', 'shift'),
             'segments': ('rings', 'radius', 'gap', 'rotate', 'drop', 'pad'), 'circle': ('shape', 'radius', 'shift', 'aa'),
-            'rectangle': ('shape', 'width', 'height', 'shift', 'angle', 'aa'), 'hexagon': ('shape', 'radius', 'shift', 'rotate', 'aa')}[k]
+            'rectangle': ('shape', 'width', 'height', 'shift', 'angle', 'aa'), 'spider': ('shape', 'width', 'shift', 'angle', 'aa'),
+            'window': ('shape', 'mode', 'to', 'slice'), 'hexagon': ('shape', 'radius', 'shift', 'rotate', 'aa')}[k]
     return k + ' ' + ' '.join(str(c[x]) for x in keys)
 
 def nontrivial(c):
@@ -199,7 +213,8 @@ def tags(c):
         if k == 'pad3' and m[0] != m[1]: t.append('pad3:non-square')
     if k == 'rebin': t.append('rebin:cube' if len(c['shape']) == 3 else 'rebin:2d')
     if k == 'segments': t += [f"segments:gap={'0' if c['gap'] == 0 else '>0'}", f"segments:rings={c['rings']}"]
-    if k in ('circle', 'rectangle', 'hexagon'): t.append(k + (':aa' if c['aa'] else ':binary'))
+    if k in ('circle', 'rectangle', 'hexagon', 'spider'): t.append(k + (':aa' if c['aa'] else ':binary'))
+    if k == 'window': t.append('window:' + c['mode'])
     return t
 
 # ------------------------------------------------------------------------------------------ implementation
@@ -212,6 +227,7 @@ def _shape_call(c, shift=None, shape=None):
     k = c['kind']; sh = tuple(shift if shift is not None else c['shift']); shp = tuple(shape or c['shape'])
     if k == 'circle': return lentil.circle(shp, c['radius'], shift=sh, antialias=c['aa'])
     if k == 'rectangle': return lentil.rectangle(shp, c['width'], c['height'], shift=sh, angle=c['angle'], antialias=c['aa'])
+    if k == 'spider': return lentil.spider(shp, c['width'], angle=c['angle'], shift=sh, antialias=c['aa'])
     return lentil.hexagon(shp, c['radius'], shift=sh, rotate=c['rotate'], antialias=c['aa'])
 
 def impl(c):
@@ -224,6 +240,15 @@ def impl(c):
             r = lentil.pad(a, tuple(c['to']))
             back = lentil.pad(r, tuple(c['shape'][-2:]))
             return {'shape': list(r.shape), 'data': _il(r), 'back_shape': list(back.shape), 'back': _il(back), 'dtype_kept': r.dtype == a.dtype}
+        if k == 'window':
+            a = _arr(c); md = c['mode']
+            if md == 'one-element': a = a.ravel()[:1].reshape(1, 1)
+            kw = {}
+            if md in ('shape', 'both', 'cube-shape', 'one-element'): kw['shape'] = tuple(c['to'])
+            if md in ('slice', 'both', 'cube-slice'): kw['slice'] = tuple(c['slice'])
+            if md == 'both': kw['shape'] = (c['slice'][1] - c['slice'][0], c['slice'][3] - c['slice'][2])
+            r = lentil.util.window(a, **kw)
+            return {'shape': list(np.shape(r)), 'data': _il(r)}
         if k == 'subarray':
             a = _arr(c)
             r = lentil.util.subarray(a, tuple(c['sub']), tuple(c['shift']))
@@ -301,6 +326,14 @@ def requests(c, io):
         return reqs
     if k == 'circle':
         return [{'op': 'circle', 'shape': c['shape'], 'radius': vlib.fbits(c['radius']), 'shift': vlib.fl(c['shift']), 'aa': c['aa']}]
+    if k == 'window':
+        md = c['mode']
+        if md == 'shape': return [{'op': 'pad2', 'shape': c['shape'], 'data': c['data'], 'to': c['to']}]
+        if md == 'cube-shape': return [{'op': 'pad3', 'shape': c['shape'], 'data': c['data'], 'to': c['to']}]
+        return []
+    if k == 'spider':
+        return [{'op': 'spider', 'shape': c['shape'], 'width': vlib.fbits(c['width']), 'shift': vlib.fl(c['shift']),
+                 'angle_rad': vlib.fbits(np.deg2rad(c['angle'])), 'aa': c['aa']}]
     if k == 'rectangle':
         return [{'op': 'rectangle', 'shape': c['shape'], 'width': vlib.fbits(c['width']), 'height': vlib.fbits(c['height']),
                  'shift': vlib.fl(c['shift']), 'angle_rad': vlib.fbits(np.deg2rad(c['angle'])), 'aa': c['aa']}]
@@ -322,6 +355,13 @@ def _margin(c):
         r = y * np.cos(a) + x * np.sin(a); cc = -y * np.sin(a) + x * np.cos(a)
         q = np.minimum(0.5 + c['width'] / 2 - np.abs(cc), 0.5 + c['height'] / 2 - np.abs(r))
         return np.clip(q, 0, 1), q
+    if k == 'spider':
+        # a vane of the given width running from the (shifted) centre outwards along `angle`, of length sqrt(2)*max(shape)/2
+        a = np.deg2rad(c['angle']); L = np.sqrt(2) * max(n0, n1) / 2
+        yc = y - (-(L / 2) * np.sin(a)); xc = x - (L / 2) * np.cos(a)
+        r = yc * np.cos(a) + xc * np.sin(a); cc = -yc * np.sin(a) + xc * np.cos(a)
+        q = np.minimum(0.5 + L / 2 - np.abs(cc), 0.5 + c['width'] / 2 - np.abs(r))
+        return 1 - np.clip(q, 0, 1), q
     inner = c['radius'] * np.sqrt(3) / 2
     rho = np.max([y * np.sin(t) + x * np.cos(t) for t in _hex_thetas(c['rotate'])], axis=0)
     if c['aa']: return np.clip(inner + 0.5 - rho, 0, 1), inner + 0.5 - rho
@@ -329,7 +369,8 @@ def _margin(c):
 
 def _ref_mask(c):
     m, q = _margin(c)
-    if not c['aa'] and c['kind'] != 'hexagon': m = (q > 0).astype(float)
+    if not c['aa'] and c['kind'] == 'spider': m = 1 - (q > 0).astype(float)
+    elif not c['aa'] and c['kind'] != 'hexagon': m = (q > 0).astype(float)
     return m, q
 
 def _cmp_mask(c, got, want, q, what):
@@ -342,11 +383,18 @@ def _cmp_mask(c, got, want, q, what):
     return None
 
 def compare(c, io, mo):
-    k = c['kind']; m = mo[0]
+    k = c['kind']; m = mo[0] if mo else None
+    if k == 'window' and not mo: return None
     if 'exc' in io:
         if m.get('ok'): return f"implementation raised {io['exc']} ({io.get('msg')}), model answered"
         return None if m.get('err') == io['exc'] else f"implementation raised {io['exc']}, model {m.get('err')}"
     if not m.get('ok'): return f"model refused ({m.get('err')}), implementation answered"
+    if k == 'window':
+        if not mo: return None
+        m = mo[0]
+        if 'exc' in io: return f"window raised {io['exc']}: {io.get('msg')}"
+        if io['shape'] != m['shape'] or io['data'] != m['data']: return f"window(shape=...) differs from the pad model: {io['shape']} vs {m['shape']}"
+        return None
     if k in ('pad2', 'pad3', 'subarray', 'rebin'):
         if io['shape'] != m['shape']: return f"shape: impl {io['shape']} model {m['shape']}"
         if io['data'] != m['data']: return f"{k}: values differ"
@@ -424,6 +472,20 @@ def oracle(c, io):
         if S[0] >= a.shape[-2] and S[1] >= a.shape[-1]:
             if io['back_shape'] != list(a.shape) or io['back'] != _il(a): return 'pad then crop back is not the identity'
         if not io['dtype_kept']: return 'pad changed the dtype'
+        return None
+    if k == 'window':
+        if 'exc' in io: return f"window raised {io['exc']}: {io.get('msg')}"
+        a = _arr(c); md = c['mode']
+        if md == 'one-element': want = a.ravel()[:1].reshape(1, 1)
+        elif md == 'none': want = a
+        elif md in ('slice', 'both', 'cube-slice'):
+            sl = c['slice']; want = a[..., sl[0]:sl[1], sl[2]:sl[3]]
+        else:
+            S = c['to']; want = np.zeros(a.shape[:-2] + tuple(S))
+            for i in range(S[0]):
+                for j in range(S[1]): want[..., i, j] = _centred(a, i - S[0] // 2, j - S[1] // 2)
+        if io['shape'] != list(want.shape) or io['data'] != _il(want):
+            return f"window({md}) is not {'the requested slice' if 'slice' in md or md == 'both' else 'the centred crop/pad (origin at floor(n/2))'}"
         return None
     if k == 'subarray':
         a = _arr(c); h, w = c['sub']; o = c['shift']
@@ -525,10 +587,16 @@ def oracle(c, io):
     # integer shift = exact translation of the sampled picture (on the common support)
     src = a[max(0, -d0):n0 - max(0, d0), max(0, -d1):n1 - max(0, d1)]
     dst = b[max(0, d0):n0 - max(0, -d0), max(0, d1):n1 - max(0, -d1)]
-    if not np.array_equal(src, dst): return f'{k}: shifting by the integer vector {c["dshift"]} does not translate the samples exactly'
+    if k == 'spider':
+        # the vane's own offset (len/2·(−sin, cos)) is added to the shift in floating point: translation holds to rounding only
+        qs = q[max(0, -d0):n0 - max(0, d0), max(0, -d1):n1 - max(0, d1)]
+        bad = (np.abs(src - dst) > 1e-9) & ((np.abs(qs) > 1e-9) | c['aa'])
+        if bad.any(): return f'{k}: shifting by the integer vector {c["dshift"]} does not translate the samples'
+    elif not np.array_equal(src, dst): return f'{k}: shifting by the integer vector {c["dshift"]} does not translate the samples exactly'
     if c['shift'] == [0.0, 0.0]:
         c0, c1 = n0 // 2, n1 // 2
         exact = k != 'hexagon'
+        if k == 'spider': return None      # a single vane has no half-turn symmetry
         for i in range(n0):
             for j in range(n1):
                 i2, j2 = 2 * c0 - i, 2 * c1 - j
